@@ -21,16 +21,14 @@ RULE = ("cases = a generated flat design (half of them with 1-3 continuous facto
         "library calls that starts with a synthesize_trials; non-trivial = the first synthesis returned >= 1 "
         "sequence and at least 2 later synthesize_trials calls were judged; distinct = case contents")
 ASSUMPTIONS = ["reference model R for the discrete part", "the snapshot lists the observable design state"]
-MINIMUMS = {"quick": {"calls_made": 1500, "later_synth_judged": 350, "histories_with_continuous": 70,
-                      "print_calls": 150},
-            "thorough": {"calls_made": 22000, "later_synth_judged": 5000, "histories_with_continuous": 1000,
-                         "print_calls": 2200}}
+MINIMUMS = {"quick": {"calls_made": 1500, "later_synth_judged": 350, "histories_with_continuous": 70, "print_calls": 150},
+            "thorough": {"calls_made": 5250, "later_synth_judged": 1225, "histories_with_continuous": 245, "print_calls": 525}}
 CASE_TIMEOUT = 90
 OPS = ["synth_sat", "synth_random", "synth_cms", "print", "print", "tabulate", "csv", "tuples", "dicts", "mismatch"]
 
 
 def cases(tier, seed):
-    n = 4000 if tier == "thorough" else 300
+    n = 1600 if tier == "thorough" else 300
     out = []
     for i in range(n):
         rng = random.Random("c19/%s/%d" % (seed, i))
